@@ -70,7 +70,7 @@ pub fn gen_doc(rng: &mut Rng, idx: usize) -> DocSpec {
   for _ in 0..rng.below(4) {
     ms.push(rng.range(0, 12) * 5);
   }
-  let price = if rng.chance(1, 6) { None } else { Some(rng.range(0, 60) as f64 / 2.0) };
+  let price = if rng.chance(1, 6) { None } else { Some(rng.range(-30, 60) as f64 / 2.0) };
   DocSpec { idx, body, tag, cats, n, ms, price }
 }
 
